@@ -26,6 +26,7 @@ Judge(e) ==
          /\ Admissible(e.tokens, e.got)
     [] e.op = "wrongpw" -> e.res = "ok" /\ e.got = <<>>
     [] e.op = "text" -> e.res = "ok"       \* arbitrary text: no panic
+    [] e.op = "textfam" -> e.members > 0 /\ e.panics = 0      \* a whole family of texts (very short bodies between valid markers): no panic
     [] e.op = "skip" -> TRUE
     [] OTHER -> FALSE
 
